@@ -149,8 +149,8 @@ func (g *valueGen) unsupportedLeaf() genValue {
 	return genValue{goVal: uintptr(7), unsupported: true}
 }
 
-var fieldNames = []string{"Title", "Count", "Items", "Meta", "Flag", "Ratio", "Next", "URL", "Xy", "A", "In", "Nil", "True", "FALSE", "Loop"}
-var mapKeys = []string{"a", "b", "name", "Name", "title", "Title", "x y", "", "é", "in", "nil", "k1", "loop", "0", "In", "IN", "Nil", "NIL", "True", "False"}
+var fieldNames = []string{"Title", "Count", "Items", "Meta", "Flag", "Ratio", "Next", "URL", "Xy", "A", "In", "Nil", "True", "FALSE", "Loop", "Null", "None", "Undefined"}
+var mapKeys = []string{"a", "b", "name", "Name", "title", "Title", "x y", "", "é", "in", "nil", "k1", "loop", "0", "In", "IN", "Nil", "NIL", "True", "False", "null", "none", "undefined", "end", "if", "else", "each"}
 
 func (g *valueGen) value(depth int) genValue {
 	r := g.r
@@ -541,6 +541,23 @@ func init() {
 						{"@each(u in users){{ u.name }};@end", map[string]any{"users": []any{c12User{Name: "Ann"}, map[string]any{"name": "bob"}, map[string]any{"Name": "Cy"}, map[string]any{"name": "dee", "Name": "DEE"}}}, "Ann;bob;Cy;dee;"},
 						{"@for(k = 0; k < rows.len(); k++){{ rows[k].qty }},@end", map[string]any{"rows": []map[string]int{{"Qty": 1}, {"qty": 2}, {"Qty": 3, "qty": 4}}}, "1,2,4,"},
 						{"@each(u in users){{ u[\"name\"] }}{{ u.name.len() }};@end", map[string]any{"users": []any{map[string]any{"Name": "Cy"}, map[string]any{"name": "bob"}}}, "Cy2;bob3;"},
+					}
+					// one map object rendered, changed by the caller, and rendered again through a loaded Template
+					if i == 0 {
+						files := map[string]string{"page.tw": "{{ n }}|{{ user.name }}|{{ list[0] }}|{{ list.len() }}", "other.tw": "{{ n + 1 }}"}
+						if tpl, err := loadTree(c, "c12same", files, ".tw"); err == nil && tpl != nil {
+							u := &c12User{Name: "Ann"}
+							d := map[string]any{"n": 1, "user": u, "list": []int{5, 6}}
+							first, _ := renderPage(c, tpl, "page", d)
+							d["n"], u.Name, d["list"] = 41, "Bob", []int{7}
+							renderPage(c, tpl, "other", d)
+							second, _ := renderPage(c, tpl, "page", d)
+							d["bad"] = make(chan int)
+							third, _ := renderPage(c, tpl, "page", d)
+							if !first.Panicked && !second.Panicked && (first.Out != "1|Ann|5|2" || second.Out != "41|Bob|7|1" || !third.Failed()) {
+								c.Violation("data-of-an-earlier-render", fmt.Sprintf("one map rendered, changed and rendered again gave %s, then %s (want 1|Ann|5|2 then 41|Bob|7|1); with a chan added: %s", first.Describe(), second.Describe(), third.Describe()), map[string]any{"files": describeFiles(files)})
+							}
+						}
 					}
 					t := cases[i]
 					c.Input(map[string]any{"source": t.src})
